@@ -529,6 +529,15 @@ class DiffXReader(object):
                             newline=newline,
                             keep_ends=True)
 
+        # Validate that the content ends in a newline. This is to ensure that
+        # the file was written according to spec. This must be checked before
+        # any indentation is stripped, or trailing spaces that are cut off
+        # from a following line could go unnoticed.
+        if not content.endswith(newline):
+            raise DiffXParseError(
+                'Expected a newline after content',
+                linenum=self._linenum)
+
         if indent:
             # It's important that we don't assume each line is actually
             # indented correctly. There could be nothing but a newline,
